@@ -295,23 +295,27 @@ class Gen:
 
 def render(items, rng):
     out = []
+
+    def gap():
+        # blanks or tabs after the directive keyword, wherever the directive stands (compiled code or not)
+        return rng.choice([' ', ' ', ' ', '\t', '  ', ' \t', '\t\t']) if rng is not None else ' '
     for it in items:
         k = it['k']
         if k == 'marker':
             out.append(f".byte {it['v']}")
         elif k == 'if':
-            out.append('#if ' + cond_text(it['cond']))
+            out.append('#if' + gap() + cond_text(it['cond']))
         elif k == 'elif':
-            out.append('#elif ' + cond_text(it['cond']))
+            out.append('#elif' + gap() + cond_text(it['cond']))
         elif k in ('ifdef', 'ifndef'):
-            out.append(f"#{k} {it['name']}")
+            out.append(f"#{k}{gap()}{it['name']}")
         elif k == 'else':
             out.append('#else')
         elif k == 'endif':
             out.append('#endif')
         elif k == 'define':
             v = it.get('val')
-            out.append(f"#define {it['name']}" + ('' if v is None else ' ' + opnd_text(v)))
+            out.append(f"#define{gap()}{it['name']}" + ('' if v is None else gap() + opnd_text(v)))
         elif k == 'label':
             out.append(it['name'] + ':')
         elif k == 'const':
